@@ -675,6 +675,14 @@ def _check_tables(prog: Program, rep: Report):
             lv = ("var", loop.target.id, frozenset({loopn})) if isinstance(loop.target, ast.Name) else None
             it_ok = cfgs_iter(it) or (it[0] == "sub" and cfgs_iter(it[1]) and it[2] in (
                 ("slice", None, ("const", -1), None), ("slice", ("const", 0), ("const", -1), None)))
+            # the loop may also walk a list built from self.configs beforehand: [DS(c.sampler) for c in self.configs][:-1]
+            mapped_elt = None
+            base_it = it[1] if it[0] == "sub" and it[2] in (("slice", None, ("const", -1), None),
+                                                            ("slice", ("const", 0), ("const", -1), None)) else it
+            if not it_ok and base_it[0] == "comp" and len(base_it[3]) == 1 and base_it[3][0][0][0] == "bound" and \
+                    cfgs_iter(base_it[3][0][1]) and not base_it[3][0][2]:
+                it_ok = True
+                mapped_elt = (base_it[2], base_it[3][0][0])  # (element term, bound variable)
             p = term_to_poly(arg)
             recv_t = fa.sym.term(c.func.value, n)
             prev = [a for a in p.atoms() if a[0] == "sub" and a[2] == ("const", -1) and a[1] == recv_t]
@@ -701,6 +709,15 @@ def _check_tables(prog: Program, rep: Report):
                     why = (f"the offset step adds len({show(inner)}), which is not the length of the data source that the concat "
                            f"dataset holds for that config (DS(config.sampler)): offsets and concat ranges drift apart whenever a "
                            f"sampler's length differs from its dataset's")
+            elif it_ok and lv and mapped_elt is not None and len(prev) == 1 and len(ln) == 1 and len(p.terms) == 2 and \
+                    p.coeff_of(prev[0]).const_value() == 1 and p.coeff_of(ln[0]).const_value() == 1:
+                elt_, bound_ = mapped_elt
+                if ln[0][2][0] == lv:
+                    good = _ds_term(elt_) == ("ds", ("attr", bound_, "sampler")) and (
+                        ds_elem is None or _getter(elt_) == _getter(ds_elem))
+                    ok = True if good else (False if elt_ == ("attr", bound_, "sampler") else None)
+                    why = "offsets[k+1] = offsets[k] + len(<k-th element of [DS(c.sampler) for c in self.configs]>)" if ok else \
+                        f"the list the offsets are accumulated over holds {show(elt_)[:60]} per config, not DS(config.sampler)"
             elif it_ok and lv and len(prev) == 1 and len(ln) == 1 and len(p.terms) == 2 and \
                     p.coeff_of(prev[0]).const_value() == 1 and p.coeff_of(ln[0]).const_value() == 1:
                 inner = ln[0][2][0]
